@@ -7,7 +7,7 @@ import htmlobs as HO
 import linkobs as L
 
 PROFILE = dict(p_hyperlink=0.35, p_field=0.35, p_bookmark=0.25, p_note=0.35, p_comment=0.25, p_table=0.15, p_cross_par_field=0.15, style_map=0.3,
-               separators=False, p_image=0.0, p_textbox=0.05, hostile=0.2, p_embedded_map=0.0, bang=0.0,
+               separators=False, p_image=0.0, p_textbox=0.05, hostile=0.2, p_embedded_map=0.0, bang=0.12,
                # targets / field URLs that a URL library would re-serialise; the same note / comment referenced again
                p_odd_target=0.6, p_note_repeat=0.3, p_comment_repeat=0.3)
 
